@@ -1,0 +1,548 @@
+//go:build verif
+
+package engine
+
+// Facade for the C13 check of /verif ("dropping removes exactly what was named, for every kind
+// of read, for good"). Add-only, compiled only with -tags verif.
+//
+// VerifOpenDropShard opens the stand-alone shard of verif_export.go together with the
+// deleted-tsid index of its retention policy, in the order the store uses at start-up
+// (DBPTInfo.OpenIndexes: primary index, deleted-tsid index, LoadDeletedTSIDs,
+// SetDeleteMergeSet; then OpenShards: WAL replay). On top of the shard it exposes
+//   - DropSeries: the body of DropSeries.Process (app/ts-store/transport/handler) for one shard:
+//     parse the condition as a tag condition, search the tsids on the shard's primary index,
+//     persist them in the deleted-tsid index;
+//   - PurgeDeleted: IndexBuilder.DropSeries, the periodic physical purge (EngineImpl.DropSeries);
+//   - one accessor per read shape, each through the code path the store uses for it:
+//     Select (shard.CreateCursor with a condition and group-by dimensions, series cursors),
+//     Aggregate (CreateCursor + ChunkReader with the call pushed down into the cursors),
+//     SeriesKeys / TagKeys / TagValues / SeriesCardinality (the index calls of
+//     EngineImpl.searchIndex, TagValues and DBPTInfo.seriesCardinality).
+
+import (
+	"bytes"
+	"context"
+	"errors"
+	"fmt"
+	"math"
+	"path/filepath"
+	"regexp"
+	"runtime/debug"
+	"sort"
+	"strings"
+	"sync/atomic"
+	"time"
+
+	"github.com/openGemini/openGemini/engine/executor"
+	"github.com/openGemini/openGemini/engine/hybridqp"
+	"github.com/openGemini/openGemini/engine/index/tsi"
+	"github.com/openGemini/openGemini/lib/config"
+	"github.com/openGemini/openGemini/lib/index"
+	"github.com/openGemini/openGemini/lib/resourceallocator"
+	"github.com/openGemini/openGemini/lib/util"
+	"github.com/openGemini/openGemini/lib/util/lifted/influx/influxql"
+	"github.com/openGemini/openGemini/lib/util/lifted/influx/meta"
+	"github.com/openGemini/openGemini/lib/util/lifted/influx/query"
+)
+
+// VerifDropShard is a VerifShard plus the deleted-tsid index of its retention policy.
+type VerifDropShard struct {
+	*VerifShard
+	delIB *tsi.IndexBuilder
+	del   *tsi.MergeSetIndex
+	prim  *tsi.MergeSetIndex
+}
+
+func verifOpenIndex(path string, ident *meta.IndexIdentifier, lockPath *string, clock uint64, dur time.Duration) (*tsi.IndexBuilder, *tsi.MergeSetIndex, error) {
+	opts := new(tsi.Options).
+		Ident(ident).
+		Path(path).
+		IndexType(index.MergeSet).
+		EngineType(config.TSSTORE).
+		StartTime(time.Now()).
+		EndTime(time.Now().Add(time.Hour)).
+		Duration(dur).
+		LogicalClock(clock).
+		SequenceId(&verifSeq).
+		Lock(lockPath)
+	ib := tsi.NewIndexBuilder(opts)
+	primary, err := tsi.NewIndex(opts)
+	if err != nil {
+		return nil, nil, err
+	}
+	primary.SetIndexBuilder(ib)
+	rel, err := tsi.NewIndexRelation(opts, primary, ib)
+	if err != nil {
+		return nil, nil, err
+	}
+	ib.Relations[uint32(index.MergeSet)] = rel
+	if err = ib.Open(); err != nil {
+		return nil, nil, err
+	}
+	ms, ok := primary.(*tsi.MergeSetIndex)
+	if !ok {
+		return nil, nil, fmt.Errorf("primary index is %T", primary)
+	}
+	return ib, ms, nil
+}
+
+// VerifOpenDropShard opens (creating or recovering) the shard rooted at dir.
+func VerifOpenDropShard(dir string, walParts int) (v *VerifDropShard, err error) {
+	defer func() {
+		if r := recover(); r != nil {
+			err = fmt.Errorf("panic while opening shard: %v\n%s", r, debug.Stack())
+		}
+	}()
+	const db, rp = "db0", "rp0"
+	dataPath := filepath.Join(dir, "data")
+	walPath := filepath.Join(dir, "wal")
+	lockPath := filepath.Join(dataPath, "LOCK")
+	clock := atomic.AddUint64(&verifClock, 1)
+
+	// DBPTInfo.OpenIndexes: the indexes of the policy ...
+	ident := &meta.IndexIdentifier{OwnerDb: db, OwnerPt: 1, Policy: rp}
+	ident.Index = &meta.IndexDescriptor{IndexID: 1, IndexGroupID: 2, TimeRange: meta.TimeRangeInfo{}}
+	ib, prim, err := verifOpenIndex(filepath.Join(dir, db, "index", "data"), ident, &lockPath, clock, time.Hour)
+	if err != nil {
+		return nil, err
+	}
+	// ... then the deleted-tsid index (index id DelIndexBuilderId, NewMergeSetIndex) ...
+	dident := &meta.IndexIdentifier{OwnerDb: db, OwnerPt: 1, Policy: rp}
+	dident.Index = &meta.IndexDescriptor{IndexID: DelIndexBuilderId, TimeRange: meta.TimeRangeInfo{}}
+	delIB, del, err := verifOpenIndex(filepath.Join(dir, db, "index", "deleted"), dident, &lockPath, clock, time.Second)
+	if err != nil {
+		_ = ib.Close()
+		return nil, err
+	}
+	// ... SetDelMergeSetForEachMergeSet
+	if err = del.LoadDeletedTSIDs(); err != nil {
+		_ = ib.Close()
+		_ = delIB.Close()
+		return nil, err
+	}
+	prim.SetDeleteMergeSet(del)
+
+	// DBPTInfo.OpenShards
+	dur := &meta.DurationDescriptor{Tier: util.Hot, TierDuration: time.Hour}
+	tr := &meta.TimeRangeInfo{StartTime: time.Unix(0, 0).UTC(), EndTime: time.Date(2099, 1, 1, 0, 0, 0, 0, time.UTC)}
+	sid := &meta.ShardIdentifier{ShardID: 1, ShardGroupID: 1, OwnerDb: db, OwnerPt: 1, Policy: rp}
+	verifLimitersOnce.Do(func() {
+		if openShardsLimit == nil {
+			openShardsLimit = make(chan struct{}, 8)
+		}
+		if replayWalLimit == nil {
+			replayWalLimit = make(chan struct{}, 8)
+		}
+		_ = resourceallocator.InitResAllocator(math.MaxInt64, 1, 1, resourceallocator.GradientDesc, resourceallocator.ChunkReaderRes, 0, 0)
+		_ = resourceallocator.InitResAllocator(math.MaxInt64, 1, 1, resourceallocator.GradientDesc, resourceallocator.ShardsParallelismRes, 0, 0)
+		_ = resourceallocator.InitResAllocator(math.MaxInt64, 1, 1, resourceallocator.GradientDesc, resourceallocator.SeriesParallelismRes, 0, 0)
+	})
+	o := verifEngineOptions()
+	sh := NewShard(dataPath, walPath, &lockPath, sid, dur, tr, o, config.TSSTORE, nil)
+	if walParts > 0 {
+		sh.wal = NewWAL(walPath, &lockPath, sid.ShardID, o.WalSyncInterval, o.WalEnabled, o.WalReplayParallel, walParts, o.WalReplayBatchSize)
+	}
+	sh.indexBuilder = ib
+	if err = sh.OpenAndEnable(nil); err != nil {
+		_ = sh.Close()
+		_ = ib.Close()
+		_ = delIB.Close()
+		return nil, err
+	}
+	return &VerifDropShard{VerifShard: &VerifShard{sh: sh, ib: ib, Dir: dir}, delIB: delIB, del: del, prim: prim}, nil
+}
+
+// Close is a clean shutdown in the order of DBPTInfo.closeDBPt: shards, indexes, deleted-tsid indexes.
+func (v *VerifDropShard) Close() error {
+	e1 := v.sh.Close()
+	e2 := v.ib.Close()
+	e3 := v.delIB.Close()
+	return errors.Join(e1, e2, e3)
+}
+
+// FlushIndexes makes pending items of both indexes searchable and durable (what the periodic
+// raw-items flusher does within a second).
+func (v *VerifDropShard) FlushIndexes() {
+	v.ib.Flush()
+	v.del.DebugFlush()
+}
+
+// StopIndexFlushers stops the periodic flushers and mergers of both index tables, so that index
+// items reach the disk only where the harness (or the code under test) flushes them.
+func (v *VerifDropShard) StopIndexFlushers() {
+	v.prim.VerifStopBackground()
+	v.del.VerifStopBackground()
+}
+
+// verifParseTagCondition is parseTagKeyCondition of app/ts-store/transport/handler.
+func verifParseTagCondition(cond string) (influxql.Expr, influxql.TimeRange, error) {
+	var expr influxql.Expr
+	if cond == "" {
+		return expr, influxql.TimeRange{}, nil
+	}
+	p := influxql.NewParser(strings.NewReader(cond))
+	expr, err := p.ParseExpr()
+	p.Release()
+	if err != nil {
+		return nil, influxql.TimeRange{}, err
+	}
+	valuer := influxql.NowValuer{Now: time.Now()}
+	e, tr, err := influxql.ConditionExpr(expr, &valuer)
+	if err != nil {
+		return e, tr, err
+	}
+	influxql.WalkFunc(e, func(node influxql.Node) {
+		switch ref := node.(type) {
+		case *influxql.VarRef:
+			ref.Type = influxql.Tag
+		case *influxql.BinaryExpr:
+			verifRewriteBinary(ref)
+		}
+	})
+	return e, tr, nil
+}
+
+// VerifParseTagCondition parses a WHERE text the way the store parses the condition of DROP SERIES
+// and of the SHOW statements (every reference is a tag).
+func VerifParseTagCondition(cond string) (influxql.Expr, error) {
+	e, _, err := verifParseTagCondition(cond)
+	return e, err
+}
+
+// verifRewriteBinary is rewriteBinary of the same package.
+func verifRewriteBinary(expr *influxql.BinaryExpr) {
+	switch expr.RHS.(type) {
+	case *influxql.IntegerLiteral, *influxql.NumberLiteral,
+		*influxql.BooleanLiteral, *influxql.UnsignedLiteral:
+		expr.RHS = &influxql.StringLiteral{Val: expr.RHS.String()}
+	case *influxql.Wildcard:
+		val, _ := regexp.Compile(".*")
+		expr.RHS = &influxql.RegexLiteral{Val: val}
+
+		if expr.Op == influxql.EQ {
+			expr.Op = influxql.EQREGEX
+		} else if expr.Op == influxql.NEQ {
+			expr.Op = influxql.NEQREGEX
+		}
+	}
+}
+
+// DropSeries runs the store's handling of a DROP SERIES request on this shard: the statements of
+// DropSeries.Process for one shard followed by storeTsids. It returns the number of tsids the
+// search selected.
+func (v *VerifDropShard) DropSeries(mst string, cond string) (n int, err error) {
+	defer func() {
+		if r := recover(); r != nil {
+			err = fmt.Errorf("panic in drop series: %v\n%s", r, debug.Stack())
+		}
+	}()
+	var expr influxql.Expr
+	var tr influxql.TimeRange
+	if cond != "" {
+		expr, tr, err = verifParseTagCondition(cond)
+		if err != nil {
+			return 0, err
+		}
+	}
+	if tr.Min.IsZero() {
+		tr.Min = time.Unix(0, influxql.MinTime).UTC()
+	}
+	if tr.Max.IsZero() {
+		tr.Max = time.Unix(0, influxql.MaxTime).UTC()
+	}
+	t := tsi.TimeRange{Min: tr.MinTimeNano(), Max: tr.MaxTimeNano()}
+	idx := v.sh.GetIndexBuilder().GetPrimaryIndex()
+	ids, e := idx.SearchSeriesByTableAndCond([]byte(mst), expr, t)
+	if e != nil {
+		return 0, e
+	}
+	if len(ids) == 0 { // storeTsids
+		return 0, nil
+	}
+	return len(ids), v.del.WriteDeleteTsids(ids)
+}
+
+// DeletedTSIDs is the in-memory deleted set, sorted.
+func (v *VerifDropShard) DeletedTSIDs() []uint64 {
+	s := v.prim.GetDeletedTSIDs()
+	if s == nil {
+		return nil
+	}
+	return s.AppendTo(nil)
+}
+
+// PurgeDeleted is the periodic drop-series task (EngineImpl.DropSeries) for this index.
+func (v *VerifDropShard) PurgeDeleted() (err error) {
+	defer func() {
+		if r := recover(); r != nil {
+			err = fmt.Errorf("panic in purge: %v\n%s", r, debug.Stack())
+		}
+	}()
+	return v.ib.DropSeries()
+}
+
+// VerifSelRow is one row of a selection: the group-by key of the tag set it came from, the series
+// key, the timestamp and one value per requested field.
+type VerifSelRow struct {
+	Group  string
+	Series string
+	Time   int64
+	Vals   []interface{}
+}
+
+func verifSelectOpt(mst string, fields []VerifField, cond influxql.Expr, dims []string, tmin, tmax int64, asc bool) (*query.ProcessorOptions, influxql.Fields, []string) {
+	var aux []influxql.VarRef
+	var qf influxql.Fields
+	var names []string
+	for _, f := range fields {
+		aux = append(aux, influxql.VarRef{Val: f.Name, Type: f.Type})
+	}
+	for i := range aux {
+		qf = append(qf, &influxql.Field{Expr: &aux[i]})
+		names = append(names, aux[i].Val)
+	}
+	opt := &query.ProcessorOptions{
+		Name:        mst,
+		Ascending:   asc,
+		FieldAux:    aux,
+		MaxParallel: 1,
+		ChunkSize:   1024,
+		StartTime:   tmin,
+		EndTime:     tmax,
+		Condition:   cond,
+		Dimensions:  dims,
+		Sources:     influxql.Sources{&influxql.Measurement{Database: "db0", RetentionPolicy: "rp0", Name: mst}},
+	}
+	return opt, qf, names
+}
+
+// Select reads the rows of a measurement that satisfy cond (tag and field atoms; VarRefs must
+// carry their type) in [tmin,tmax], grouped by dims, through shard.CreateCursor: the index scan
+// (IndexBuilder.Scan -> SearchSeriesWithOpts) produces the tag sets, the series cursors below the
+// tag-set cursors produce the rows (as VerifShard.Dump).
+func (v *VerifDropShard) Select(mst string, fields []VerifField, cond influxql.Expr, dims []string, tmin, tmax int64, asc bool) (rows []VerifSelRow, err error) {
+	defer func() {
+		if r := recover(); r != nil {
+			err = fmt.Errorf("panic while reading: %v\n%s", r, debug.Stack())
+		}
+	}()
+	opt, qf, names := verifSelectOpt(mst, fields, cond, dims, tmin, tmax, asc)
+	schema := executor.NewQuerySchema(qf, names, opt, nil)
+	info, err := v.sh.CreateCursor(context.Background(), schema)
+	if err != nil {
+		return nil, err
+	}
+	if info == nil {
+		return nil, nil
+	}
+	defer info.Unref()
+	for _, cur := range info.GetCursors() {
+		gc, ok := cur.(*groupCursor)
+		if !ok {
+			_ = cur.Close()
+			return nil, fmt.Errorf("unexpected cursor type %T", cur)
+		}
+		for i := range gc.tagSetCursors {
+			ts, ok := gc.tagSetCursors[i].(*tagSetCursor)
+			if !ok {
+				return nil, fmt.Errorf("unexpected tag-set cursor type %T", gc.tagSetCursors[i])
+			}
+			group := string(ts.tagSet.GetKey())
+			for _, kc := range ts.keyCursors {
+				for {
+					rec, sinfo, e := kc.Next()
+					if e != nil {
+						_ = cur.Close()
+						return nil, e
+					}
+					if rec == nil || rec.RowNums() == 0 {
+						break
+					}
+					var tmp []VerifRow
+					tmp = appendVerifRows(tmp, rec, string(sinfo.GetSeriesKey()), fields)
+					for _, r := range tmp {
+						rows = append(rows, VerifSelRow{Group: group, Series: r.Series, Time: r.Time, Vals: r.Vals})
+					}
+				}
+			}
+		}
+		_ = cur.Close()
+	}
+	return rows, nil
+}
+
+// VerifAggRow is one partial aggregate the store-side reader emitted: the tags of the group and
+// the value (int64 or float64; nil = null).
+type VerifAggRow struct {
+	Group string
+	Time  int64
+	Val   interface{}
+}
+
+// Aggregate evaluates call(field) (count, sum, min, max, first, last) grouped by dims with the call
+// pushed down into the cursors, the way the store executes the reader part of an aggregate query:
+// CreateCursor, then a ChunkReader whose ops carry the call (KeyCursors.SetOps). The rows are
+// the partial results per tag set; the caller merges them.
+func (v *VerifDropShard) Aggregate(mst, call string, field VerifField, cond influxql.Expr, dims []string, tmin, tmax int64) (rows []VerifAggRow, err error) {
+	defer func() {
+		if r := recover(); r != nil {
+			err = fmt.Errorf("panic while aggregating: %v\n%s", r, debug.Stack())
+		}
+	}()
+	ref := &influxql.VarRef{Val: field.Name, Type: field.Type}
+	c := &influxql.Call{Name: call, Args: []influxql.Expr{ref}}
+	outType := field.Type
+	if call == "count" {
+		outType = influxql.Integer
+	}
+	opt := &query.ProcessorOptions{
+		Name:        mst,
+		Ascending:   true,
+		MaxParallel: 1,
+		ChunkSize:   1024,
+		StartTime:   tmin,
+		EndTime:     tmax,
+		Condition:   cond,
+		Dimensions:  dims,
+		Sources:     influxql.Sources{&influxql.Measurement{Database: "db0", RetentionPolicy: "rp0", Name: mst}},
+	}
+	qf := influxql.Fields{&influxql.Field{Expr: c, Alias: "val"}}
+	schema := executor.NewQuerySchema(qf, []string{"val"}, opt, nil)
+	info, err := v.sh.CreateCursor(context.Background(), schema)
+	if err != nil {
+		return nil, err
+	}
+	if info == nil {
+		return nil, nil
+	}
+	defer info.Unref()
+	var keyCursors []interface{}
+	for _, cur := range info.GetCursors() {
+		keyCursors = append(keyCursors, cur)
+	}
+	out := hybridqp.NewRowDataTypeImpl(influxql.VarRef{Val: "val", Type: outType})
+	ops := []hybridqp.ExprOptions{{Expr: c, Ref: influxql.VarRef{Val: "val", Type: outType}}}
+	rd := NewChunkReader(out, ops, nil, schema, keyCursors, false)
+	defer rd.Release()
+	port := executor.NewChunkPort(out)
+	rd.GetOutputs()[0].Connect(port)
+	port.Connect(rd.GetOutputs()[0])
+	ctx := context.Background()
+	werr := make(chan error, 1)
+	go func() { werr <- rd.Work(ctx) }()
+	for ck := range port.State {
+		tags := ck.Tags()
+		idx := ck.TagIndex()
+		col := ck.Column(0)
+		for g := range tags {
+			lo := idx[g]
+			hi := ck.Len()
+			if g+1 < len(idx) {
+				hi = idx[g+1]
+			}
+			tk, tv := tags[g].GetChunkTagAndValues()
+			var kvs []string
+			for i := range tk {
+				kvs = append(kvs, tk[i]+"="+tv[i])
+			}
+			key := strings.Join(kvs, ",")
+			for r := lo; r < hi; r++ {
+				row := VerifAggRow{Group: key, Time: ck.TimeByIndex(r)}
+				if !col.IsNilV2(r) {
+					vi := col.GetValueIndexV2(r)
+					switch outType {
+					case influxql.Integer:
+						row.Val = col.IntegerValue(vi)
+					case influxql.Float:
+						row.Val = col.FloatValue(vi)
+					case influxql.Boolean:
+						row.Val = col.BooleanValue(vi)
+					case influxql.String:
+						row.Val = col.StringValue(vi)
+					}
+				}
+				rows = append(rows, row)
+			}
+		}
+	}
+	if e := <-werr; e != nil {
+		return rows, e
+	}
+	return rows, nil
+}
+
+// SeriesKeys is SHOW SERIES for one measurement on this index: MergeSetIndex.SearchSeriesKeys as
+// called by EngineImpl.searchIndex, keys sorted.
+func (v *VerifDropShard) SeriesKeys(mst string, cond influxql.Expr) (keys []string, err error) {
+	defer func() {
+		if r := recover(); r != nil {
+			err = fmt.Errorf("panic in series keys: %v\n%s", r, debug.Stack())
+		}
+	}()
+	series, err := v.prim.SearchSeriesKeys(make([][]byte, 1)[:0], []byte(mst), cond)
+	if err != nil {
+		return nil, err
+	}
+	for _, k := range series {
+		keys = append(keys, string(bytes.Replace(k, []byte(mst), []byte(mst), 1)))
+	}
+	sort.Strings(keys)
+	return keys, nil
+}
+
+// TagKeys is SHOW TAG KEYS: EngineImpl.handleTagKeys over the series keys.
+func (v *VerifDropShard) TagKeys(mst string, cond influxql.Expr) ([]string, error) {
+	keys, err := v.SeriesKeys(mst, cond)
+	if err != nil {
+		return nil, err
+	}
+	set := map[string]struct{}{}
+	for _, key := range keys {
+		arr := strings.Split(key, ",")
+		for _, item := range arr[1:] {
+			kv := strings.Split(item, "=")
+			set[kv[0]] = struct{}{}
+		}
+	}
+	var out []string
+	for k := range set {
+		out = append(out, k)
+	}
+	sort.Strings(out)
+	return out, nil
+}
+
+// TagValues is SHOW TAG VALUES WITH KEY IN (tagKeys): MergeSetIndex.SearchTagValues as called by
+// EngineImpl.TagValues; one sorted value list per key.
+func (v *VerifDropShard) TagValues(mst string, tagKeys []string, cond influxql.Expr) (vals [][]string, err error) {
+	defer func() {
+		if r := recover(); r != nil {
+			err = fmt.Errorf("panic in tag values: %v\n%s", r, debug.Stack())
+		}
+	}()
+	var tks [][]byte
+	for _, k := range tagKeys {
+		tks = append(tks, []byte(k))
+	}
+	res, err := v.prim.SearchTagValues([]byte(mst), tks, cond)
+	if err != nil {
+		return nil, err
+	}
+	vals = make([][]string, len(tagKeys))
+	for i := range res {
+		vals[i] = append([]string(nil), res[i]...)
+		sort.Strings(vals[i])
+	}
+	return vals, nil
+}
+
+// SeriesCardinality is SHOW SERIES CARDINALITY: MergeSetIndex.SeriesCardinality as called by
+// DBPTInfo.seriesCardinality (cond == nil) / seriesCardinalityWithCondition.
+func (v *VerifDropShard) SeriesCardinality(mst string, cond influxql.Expr) (n uint64, err error) {
+	defer func() {
+		if r := recover(); r != nil {
+			err = fmt.Errorf("panic in series cardinality: %v\n%s", r, debug.Stack())
+		}
+	}()
+	return v.prim.SeriesCardinality([]byte(mst), cond, tsi.DefaultTR)
+}
